@@ -885,7 +885,7 @@ def invariant_scenarios(include_tree=False, sample_c05=40, seed=0):
 
 
 def run_invariants(pid, scenarios, spec, res, per_state=None, per_step=None,
-                   at_end=None, max_schedules=30):
+                   at_end=None, max_schedules=30, per_request=None):
     """Run scenarios under the scheduler; call
        per_state(dump, wit) for every committed state,
        per_step(step, res) with a monitors.Step for the last committing step
@@ -948,6 +948,17 @@ def run_invariants(pid, scenarios, spec, res, per_state=None, per_step=None,
                                            hist=lambda w=wit: w)
                         res.count('concurrent_steps_judged')
                         per_step(st, res)
+                if per_request is not None:
+                    # per_request(req, resp, own, wit): own = the (before,
+                    # after) dumps around EVERY committing step of that
+                    # request's thread, in order
+                    for n in reqs:
+                        if results[n] is None:
+                            continue
+                        own = [(seq[i - 1][2], seq[i][2])
+                               for i in range(1, len(seq)) if seq[i][1] == n]
+                        per_request(reqs[n], results[n], own, wit, res,
+                                    seq[-1][2])
                 if at_end is not None:
                     final = seq[-1][2]
                     at_end(d0, final, reqs, results, wit)
